@@ -397,12 +397,47 @@ class Guards:
                 if msites:
                     cb, cenv, sites = mb, menv, msites
                     cg = Guards(self.ev, cb, cenv)
+        extra = {}
+        if not sites:
+            # the callee hands on a value whose presence is a condition (`…; cond.then_some(()).ok_or(E)` as its last
+            # expression): every exit that can return a success counts, with the presence conditions of what it returns
+            from terms import variant_of
+            defs = []      # where the return value is defined: calls / assignments writing the whole return place
+            for xb in sorted(cb.live_blocks()):
+                t_ = cb.blocks[xb]["term"]
+                if t_["k"] == "call" and t_["dest"]["l"] == 0 and not t_["dest"]["proj"] and t_.get("t") is not None:
+                    defs.append((xb, "call"))
+                for si_, s_ in enumerate(cb.blocks[xb]["stmts"]):
+                    if s_["k"] == "assign" and s_["place"]["l"] == 0 and not s_["place"]["proj"]:
+                        defs.append((xb, si_))
+            for xb, how in defs:
+                try:
+                    v = self.ev.call_val(cenv, xb) if how == "call" else self.ev.rvalue(cenv, cb.blocks[xb]["stmts"][how]["rv"], (xb, how))
+                except RecursionError:
+                    return [], []
+                alts = v[1] if v[0] == "phi" else (v,)
+                alts = [a for a in alts if not (a[0] in ("none", "from_residual") or variant_of(a) in ("Err", "None"))]
+                if not alts:
+                    continue
+                sites.append(xb)
+                pcs = None
+                for a in alts:
+                    ps = set((c[1], True) for c in a[2] if c[0] == "pred") if a[0] == "opt" and len(a) >= 3 else set()
+                    pcs = ps if pcs is None else (pcs & ps)
+                extra[xb] = pcs or set()
         if not sites:
             return [], []
         rel_sets, raw_sets = [], []
         for sb in sites:
             r, w = cg.relations_at(sb, depth + 1)
             w = list(w)
+            r = list(r)
+            for c_, tr_ in extra.get(sb, ()):
+                for c2, t2 in expand_bool(c_, tr_):
+                    w.append((c2, t2, None))
+                    rr = canon_rel(c2, t2)
+                    if rr:
+                        r.append(rr)
             for fa in foralls_at(cg, sb):
                 w.append((fa, "forall", None))
             rel_sets.append(set(r))
@@ -513,7 +548,8 @@ class Guards:
         if x is None or x[0] != "opt" or len(x) < 3 or not x[2]:
             return []
         preds = [c[1] for c in x[2] if c[0] == "pred"]
-        if len(preds) != len(x[2]):
+        only_preds = len(preds) == len(x[2])
+        if not preds:
             return []
         variants, adt_, place = discr_variants(self.body, sw["block"])
         if not variants:
@@ -528,7 +564,7 @@ class Guards:
                 got.add(names.get(v))
         if got and got <= {"Ok", "Some", "Continue"}:
             return [(c, True) for c in preds]
-        if got and got <= {"Err", "None", "Break"} and len(preds) == 1:
+        if got and got <= {"Err", "None", "Break"} and len(preds) == 1 and only_preds:
             return [(preds[0], False)]
         return []
 
@@ -863,11 +899,20 @@ def returned_only_if(ev, body, env, local):
     if len(t["args"]) != 2:
         return None
     recv = ev.operand(env, t["args"][0], (cons[0]["block"], None))
+    if recv[0] == "opt" and len(recv) >= 3 and not recv[2]:
+        # the receiver is known to be present here (e.g. the condition folded to `true` for this enum variant):
+        # the error value is built but can never be handed on
+        return [(("const", "bool", 0), True)]
     if recv[0] == "opt" and len(recv) >= 3 and len(recv[2]) == 1:
         c = next(iter(recv[2]))
         if c[0] == "pred":
             return [(c[1], False)]
     return None
+
+
+def never_holds(conds):
+    """[(term, truth)] contains a condition that cannot hold (`false == true`): the site is dead in this context"""
+    return any((t_ == ("const", "bool", 0) and tr is True) or (t_ == ("const", "bool", 1) and tr is False) for t_, tr in conds)
 
 
 def unconditional_constructor(body, block):
